@@ -1,66 +1,243 @@
-(* C11 -- AST facts about the parts of the migration that are not translated by cxx2coq: the try / catch (...) of
-   HashSet::pvRelocateItems() and the recursion over older generations in HashSet::pvRelocateItems(Buckets ptr).
-   Gen_RelocFacts.v (statement lists as canonical strings) is regenerated from the clang AST of the current headers on
-   every run by props/C11/astfacts.py.  Here the structural facts that the hand model GrowModel.reloc_gens / relocate is
-   written for are COMPUTED from those lists and proved to hold.  What the booleans mean for the model:
-     swallows            a failure of the migration is caught by catch (...) with an empty handler and nothing runs after the try
-                         = GrowModel.relocate: MStop leaves the state as the failed step left it, the operation goes on
-     unlink_on_success   ExtractNextBuckets of the newest table follows the migration inside the try: the older chain stays
-                         linked when the migration failed                          = reloc_gens keeps the rest of the chain on MStop
-     oldest_first        in the worker the recursive call on the next (older) table comes before the loop over the own
-                         buckets, guarded by next != nullptr, and unlinks the older table only after its migration returned
-                                                                                   = reloc_gens migrates the LAST list element first
-     destroy_last        the emptied table is destroyed after its loop            = reloc_gens drops a table only when all its items moved
-     no_inner_handler    no try anywhere in the worker: a failure leaves every table on the recursion path linked and not destroyed
-   The link between these facts and the Gallina text of reloc_gens is by reading (the hand model is not parametrised by them);
-   their consequences are compared with the real containers on every run (number of generations and bucket contents after
-   every operation). *)
-From Coq Require Import List String Bool Arith.
+(* C11 -- the parts of the migration that cxx2coq does not translate -- the try / catch (...) of HashSet::pvRelocateItems()
+   and the recursion over older generations, the unlinking and the Destroy in HashSet::pvRelocateItems(Buckets ptr) -- are
+   read off the clang AST on every run (props/C11/astfacts.py -> Gen_RelocFacts.v, statements in the syntax of RelocSyntax.v).
+   Here they are INTERPRETED: `interp_worker` / `interp_wrapper` execute the generated statement lists on the model's chain of
+   tables (the loop over the own buckets = GrowModel.reloc_buckets, whose skeleton is Gen_HashSetMove; an exception = a status
+   other than MOk, which skips the remaining statements up to a handler), and the theorems below prove that the result IS the
+   hand model's reloc_gens / relocate.  So every theorem about growth failures (hadd / hreserve call relocate) is a theorem
+   about the interpretation of the statements of the current source: moving ExtractNextBuckets out of the try, adding a
+   handler, destroying a table before its loop, or recursing after the own loop changes the generated lists and breaks
+   these proofs.  A statement the interpreter does not know makes it answer None (proof fails as well). *)
+From Coq Require Import ZArith List String Bool Arith.
+From C11 Require Import GrowModel RelocSyntax.
 From C11 Require Gen_RelocFacts.
 Import ListNotations.
 Local Open Scope string_scope.
 
 Definition has (sub s : string) : bool := match index 0 sub s with Some _ => true | None => false end.
-Definition is_decl (s : string) : bool := prefix "decl " s.
-Fixpoint find_idx (p : string -> bool) (l : list string) (i : nat) : option nat :=
-  match l with [] => None | s :: r => if p s then Some i else find_idx p r (S i) end.
-Definition lt_opt (a b : option nat) : bool :=
-  match a, b with Some x, Some y => Nat.ltb x y | _, _ => false end.
 Definition str_eqb (a b : string) : bool := if string_dec a b then true else false.
 Fixpoint list_eqb (a b : list string) : bool :=
   match a, b with [] , [] => true | x :: r, y :: q => str_eqb x y && list_eqb r q | _, _ => false end.
 
-Definition swallows : bool :=
-  Gen_RelocFacts.wrapper_catch_all && list_eqb Gen_RelocFacts.wrapper_handler [] &&
-  forallb is_decl Gen_RelocFacts.wrapper_outside_try &&
-  list_eqb Gen_RelocFacts.wrapper_noexcept ["void () noexcept"].
-Definition unlink_on_success : bool :=
-  list_eqb Gen_RelocFacts.wrapper_try ["pvRelocateItems(nextBuckets)"; "mBuckets.ExtractNextBuckets()"] &&
-  list_eqb Gen_RelocFacts.wrapper_outside_try ["decl nextBuckets = mBuckets.GetNextBuckets()"].
-Definition rec_stmt : string := "if (nextBuckets != nullptr) { pvRelocateItems(nextBuckets); buckets.ExtractNextBuckets() }".
-Definition is_loop (s : string) : bool := prefix "for " s.
-Definition is_destroy (s : string) : bool := str_eqb s "buckets.Destroy(memManager, false)".
-Definition oldest_first : bool :=
-  let w := Gen_RelocFacts.worker_body in
-  lt_opt (find_idx (str_eqb rec_stmt) w 0) (find_idx is_loop w 0) &&
-  match w with d :: _ => str_eqb d "decl nextBuckets = buckets.GetNextBuckets()" | [] => false end &&
-  Nat.eqb (List.length (filter (has "pvRelocateItems(") w)) 1 &&
-  Nat.eqb (List.length (filter is_loop w)) 1.
-Definition destroy_last : bool :=
-  let w := Gen_RelocFacts.worker_body in
-  lt_opt (find_idx is_loop w 0) (find_idx is_destroy w 0) &&
-  match rev w with l :: _ => is_destroy l | [] => false end &&
-  Nat.eqb (List.length (filter (has "Destroy(") w)) 1.
-Definition no_inner_handler : bool :=
-  negb (existsb (has "try ") Gen_RelocFacts.worker_body) && negb (existsb (has "catch ") Gen_RelocFacts.worker_body).
-(* the loop skeleton that Gen_HashSetMove translates is this very loop: per item --iter, GetHashCodePart, Remove *)
-Definition loop_is_translated_one : bool :=
-  existsb (fun s => is_loop s && has "for { --bucketIter; decl hashCode = bucket.GetHashCodePart(" s &&
-                    has "bucketIter = bucket.Remove(bucketParams, bucketIter, itemReplacer) } }" s) Gen_RelocFacts.worker_body.
-Definition worker_noexcept_iff_nothrow : bool :=
-  match Gen_RelocFacts.worker_noexcept with [t] => has "noexcept(areItemsNothrowRelocatable)" t | _ => false end.
+(* what a statement of the worker pvRelocateItems(Buckets ptr buckets) means for the chain *)
+Inductive wact : Type :=
+| WSkip            (* a declaration that does not touch the chain *)
+| WBindNext        (* Buckets* nextBuckets = buckets->GetNextBuckets(); *)
+| WRecurse         (* if (nextBuckets != nullptr) { pvRelocateItems(nextBuckets); buckets->ExtractNextBuckets(); } *)
+| WLoop            (* the loop over the own buckets that Gen_HashSetMove translates *)
+| WDestroy         (* buckets->Destroy(memManager, false); *)
+| WUnknown.
 
-Theorem reloc_structure_is_source :
-  swallows = true /\ unlink_on_success = true /\ oldest_first = true /\ destroy_last = true /\ no_inner_handler = true /\
-  loop_is_translated_one = true /\ worker_noexcept_iff_nothrow = true.
-Proof. vm_compute. repeat split; reflexivity. Qed.
+Definition is_item_loop (s : string) : bool :=
+  prefix "for { decl bucket = op(*buckets, i); " s &&
+  has "for { --bucketIter; decl hashCode = bucket.GetHashCodePart(" s &&
+  has "bucketIter = bucket.Remove(bucketParams, bucketIter, itemReplacer) } }" s.
+
+Definition wact_of (s : cstmt) : wact :=
+  match s with
+  | SDecl name init =>
+      if str_eqb name "nextBuckets" then (if str_eqb init "buckets.GetNextBuckets()" then WBindNext else WUnknown)
+      else if has "nextBuckets" init || has "Extract" init || has "Destroy" init || has "pvRelocateItems" init then WUnknown
+      else WSkip
+  | SIfThen c body =>
+      if str_eqb c "nextBuckets != nullptr" &&
+         list_eqb body ["pvRelocateItems(nextBuckets)"; "buckets.ExtractNextBuckets()"] then WRecurse else WUnknown
+  | SFor t => if is_item_loop t then WLoop else WUnknown
+  | SExpr e => if str_eqb e "buckets.Destroy(memManager, false)" then WDestroy else WUnknown
+  | _ => WUnknown
+  end.
+
+(* statements of the wrapper pvRelocateItems() *)
+Inductive tact : Type := TCall | TUnlink | TUnknown.
+Definition tact_of (s : string) : tact :=
+  if str_eqb s "pvRelocateItems(nextBuckets)" then TCall
+  else if str_eqb s "mBuckets.ExtractNextBuckets()" then TUnlink else TUnknown.
+
+Section Interp.
+  Variable B : Type.
+  Variable b0 : B.
+  Variable ub : B -> Z -> B.
+  Variable h : Z -> Z.
+  Variable cap : Z.
+  Variable wf0 : bool.
+  Variable wfu : Z -> bool.
+  Variable start : Z -> Z -> Z.
+  Variable next : Z -> Z -> Z -> Z.
+  Variable nothrow : bool.
+  Let rbuckets := reloc_buckets B b0 ub h cap wf0 wfu start next nothrow.
+  Let rgens := reloc_gens B b0 ub h cap wf0 wfu start next nothrow.
+
+  Definition is_ok (st : mstat) : bool := match st with MOk => true | _ => false end.
+
+  (* the state of one activation of the worker: its own table (None once destroyed), the older chain still linked to it,
+     whether nextBuckets is bound, the newest table, the failure schedule, the status (<> MOk: an exception is in flight) *)
+  Definition wstate : Type := (option (table B) * list (table B) * bool * table B * list bool * mstat)%type.
+
+  Definition wstep (rec : table B -> list bool -> option (list (table B) * table B * list bool * mstat))
+      (a : wact) (s : wstate) : option wstate :=
+    let '(own, older, bound, nw, sch, st) := s in
+    if negb (is_ok st) then Some s                      (* exception in flight and no handler in the worker: skip *)
+    else match a with
+    | WSkip => Some s
+    | WBindNext => Some (own, older, true, nw, sch, st)
+    | WRecurse =>
+        if negb bound then None
+        else match older with
+        | [] => Some s                                   (* nextBuckets == nullptr *)
+        | _ :: _ =>
+            match rec nw sch with
+            | None => None
+            | Some (older', nw1, sch1, st1) =>
+                if is_ok st1 then Some (own, [], bound, nw1, sch1, MOk)          (* ExtractNextBuckets after the normal return *)
+                else Some (own, older', bound, nw1, sch1, st1)                   (* thrown out of the call: still linked *)
+            end
+        end
+    | WLoop =>
+        match own with
+        | None => None                                   (* loop over a destroyed table *)
+        | Some g => match rbuckets (tbs B g) nw sch with
+                    | (bs', nw2, sch2, st2) => Some (Some (mkT B (tlog B g) bs'), older, bound, nw2, sch2, st2)
+                    end
+        end
+    | WDestroy => match own with None => None | Some _ => Some (None, older, bound, nw, sch, st) end
+    | WUnknown => None
+    end.
+
+  Fixpoint wexec rec (acts : list wact) (s : wstate) : option wstate :=
+    match acts with
+    | [] => Some s
+    | a :: r => match wstep rec a s with None => None | Some s' => wexec rec r s' end
+    end.
+
+  (* pvRelocateItems(buckets) on the chain `olds` = buckets :: older generations *)
+  Fixpoint interp_worker (acts : list wact) (olds : list (table B)) (nw : table B) (sch : list bool)
+      : option (list (table B) * table B * list bool * mstat) :=
+    match olds with
+    | [] => Some ([], nw, sch, MOk)
+    | g :: older =>
+        match wexec (fun nw' sch' => interp_worker acts older nw' sch') acts (Some g, older, false, nw, sch, MOk) with
+        | None => None
+        | Some (own, older', _, nw', sch', st) =>
+            Some (List.app (match own with Some t => [t] | None => [] end) older', nw', sch', st)
+        end
+    end.
+
+  (* the wrapper: Some (Some chain) = returned, Some None = std::terminate (exception out of a noexcept function),
+     None = not interpretable *)
+  Definition xstate : Type := (list (table B) * table B * list bool * mstat * bool)%type.   (* olds, newest, schedule, status, bound *)
+
+  Fixpoint texec (wacts : list wact) (body : list string) (s : xstate) : option xstate :=
+    match body with
+    | [] => Some s
+    | t :: r =>
+        let '(olds, nw, sch, st, bound) := s in
+        if negb (is_ok st) then Some s
+        else match tact_of t with
+        | TCall => if negb bound then None
+                   else match interp_worker wacts olds nw sch with
+                        | None => None
+                        | Some (olds', nw', sch', st') => texec wacts r (olds', nw', sch', st', bound)
+                        end
+        | TUnlink => texec wacts r ([], nw, sch, st, bound)
+        | TUnknown => None
+        end
+    end.
+
+  Fixpoint xexec (wacts : list wact) (stmts : list cstmt) (s : xstate) : option xstate :=
+    match stmts with
+    | [] => Some s
+    | c :: r =>
+        let '(olds, nw, sch, st, bound) := s in
+        if negb (is_ok st) then Some s
+        else match c with
+        | SDecl name init =>
+            if str_eqb name "nextBuckets" && str_eqb init "mBuckets.GetNextBuckets()" then xexec wacts r (olds, nw, sch, st, true)
+            else None
+        | STry body handler catch_all =>
+            match texec wacts body s with
+            | None => None
+            | Some (olds', nw', sch', st', bound') =>
+                match st' with
+                | MOk => xexec wacts r (olds', nw', sch', MOk, bound')
+                | MTerm => Some (olds', nw', sch', MTerm, bound')           (* the noexcept worker terminated the process *)
+                | MStop => if catch_all && list_eqb handler [] then xexec wacts r (olds', nw', sch', MOk, bound')   (* swallowed *)
+                           else None
+                end
+            end
+        | SExpr e => match tact_of e with
+                     | TUnlink => xexec wacts r ([], nw, sch, st, bound)
+                     | _ => None
+                     end
+        | _ => None
+        end
+    end.
+
+  Definition interp_wrapper (wacts : list wact) (stmts : list cstmt) (gs : list (table B)) (sch : list bool)
+      : option (option (list (table B))) :=
+    match gs with
+    | nw :: olds =>
+        match xexec wacts stmts (olds, nw, sch, MOk, false) with
+        | None => None
+        | Some (olds', nw', _, st, _) => Some (match st with MTerm => None | _ => Some (nw' :: olds') end)
+        end
+    | [] => None
+    end.
+
+  (* ---------------- the generated statements, interpreted, ARE the hand model ---------------- *)
+  Definition src_wacts : list wact := map wact_of Gen_RelocFacts.worker_stmts.
+
+  Lemma src_wacts_eq : src_wacts = [WBindNext; WRecurse; WSkip; WSkip; WSkip; WSkip; WLoop; WDestroy].
+  Proof. vm_compute. reflexivity. Qed.
+
+  Theorem reloc_gens_is_interpreted_source : forall olds nw sch,
+    interp_worker src_wacts olds nw sch = Some (rgens olds nw sch).
+  Proof.
+    rewrite src_wacts_eq. induction olds as [|g older IH]; intros nw sch; [reflexivity|].
+    cbn [interp_worker]. unfold rgens in *. cbn [reloc_gens].
+    cbn [wexec wstep is_ok negb]. destruct older as [|g2 older2].
+    - cbn [reloc_gens is_ok negb wexec wstep]. unfold rbuckets.
+      destruct (reloc_buckets B b0 ub h cap wf0 wfu start next nothrow (tbs B g) nw sch) as [[[bs' nw2] sch2] st2].
+      destruct st2; reflexivity.
+    - rewrite IH.
+      destruct (reloc_gens B b0 ub h cap wf0 wfu start next nothrow (g2 :: older2) nw sch) as [[[older' nw1] sch1] st1].
+      destruct st1; cbn [is_ok negb wexec wstep]; try reflexivity.
+      unfold rbuckets.
+      destruct (reloc_buckets B b0 ub h cap wf0 wfu start next nothrow (tbs B g) nw1 sch1) as [[[bs' nw2] sch2] st2].
+      destruct st2; reflexivity.
+  Qed.
+
+  Lemma rgens_ok_empty : forall olds nw sch olds' nw' sch',
+    rgens olds nw sch = (olds', nw', sch', MOk) -> olds' = [].
+  Proof.
+    intros olds nw sch olds' nw' sch' E. unfold rgens in E. destruct olds as [|g older]; cbn [reloc_gens] in E.
+    - congruence.
+    - destruct (reloc_gens B b0 ub h cap wf0 wfu start next nothrow older nw sch) as [[[o1 n1] s1] st1].
+      destruct st1; try congruence.
+      destruct (reloc_buckets B b0 ub h cap wf0 wfu start next nothrow (tbs B g) n1 s1) as [[[bs' n2] s2] st2].
+      destruct st2; congruence.
+  Qed.
+
+  Theorem relocate_is_interpreted_source : forall nw g older sch,
+    interp_wrapper src_wacts Gen_RelocFacts.wrapper_stmts (nw :: g :: older) sch
+      = Some (relocate B b0 ub h cap wf0 wfu start next nothrow (nw :: g :: older) sch).
+  Proof.
+    intros nw g older sch. unfold interp_wrapper, Gen_RelocFacts.wrapper_stmts.
+    cbn [xexec is_ok negb]. change (str_eqb "nextBuckets" "nextBuckets" && str_eqb "mBuckets.GetNextBuckets()" "mBuckets.GetNextBuckets()") with true.
+    cbv iota. cbn [xexec is_ok negb texec].
+    change (tact_of "pvRelocateItems(nextBuckets)") with TCall. cbv iota. cbn [negb].
+    rewrite reloc_gens_is_interpreted_source. cbn [relocate]. fold rgens.
+    destruct (rgens (g :: older) nw sch) as [[[olds' nw'] sch'] st'] eqn:E.
+    destruct st'.
+    - apply rgens_ok_empty in E. subst olds'. cbn [texec is_ok negb]. change (tact_of "mBuckets.ExtractNextBuckets()") with TUnlink.
+      cbv iota. cbn [texec xexec]. reflexivity.
+    - cbn [texec is_ok negb andb list_eqb xexec]. reflexivity.
+    - cbn [texec is_ok negb]. reflexivity.
+  Qed.
+
+  (* side facts kept from round 5: exception specifications *)
+  Definition noexcept_facts : bool :=
+    match Gen_RelocFacts.worker_noexcept with [t] => has "noexcept(areItemsNothrowRelocatable)" t | _ => false end &&
+    list_eqb Gen_RelocFacts.wrapper_noexcept ["void () noexcept"].
+  Lemma noexcept_facts_hold : noexcept_facts = true.
+  Proof. vm_compute. reflexivity. Qed.
+End Interp.
